@@ -81,6 +81,8 @@ RegApply(R, d, o) ==
 Ret(R, o) ==
   CASE o.op = "RemoveFootnote" -> IF HasId(R.fn, IdOf(o.a)) THEN "ok" ELSE "err"
     [] o.op = "RemoveEndnote"  -> IF HasId(R.en, IdOf(o.a)) THEN "ok" ELSE "err"
+    \* no return value; observable result = whether the numbering part was rewritten
+    [] o.op = "RestartNumbering" -> IF HasId(R.nums, IdOf(o.a)) THEN "changed" ELSE "ok"
     [] OTHER -> "ok"
 
 \* ---- the calling document's own state ------------------------------------
